@@ -28,10 +28,11 @@ PROP = {
              "bbr/conservative, bbr/aggressive, reno. One synctest bubble per server configuration ('world'), connection "
              "attempts 2 ms (virtual) apart so about ten handshakes overlap. c10-negotiate (real server x real "
              "client.NewClient): 12 corner worlds covering every (server MaxTx, client MaxRx) pair and every (client "
-             "MaxTx, server MaxRx) pair with ignore-client-bandwidth on and off (72 handshakes), plus quick: 30 PRNG "
+             "MaxTx, server MaxRx) pair with ignore-client-bandwidth on and off (72 handshakes), 6 reno worlds (server reno x "
+             "MaxTx {0, 65536, 10^6} x ignore on/off, clients declaring 0 and non-zero limits, 36 handshakes), plus quick: 30 PRNG "
              "server configurations x 5 PRNG client configurations (150 handshakes); thorough: the full product "
              "server{MaxTx,MaxRx,ignore,cc} x client{MaxTx,MaxRx,cc} = 288 x 144 = 41472 handshakes. c10-rawclient "
-             "(real server, raw h3 client): server MaxTx x ignore (quick: controller rotating, 12 worlds; thorough: x 4 "
+             "(real server, raw h3 client): server MaxTx x ignore (quick: controller rotating plus reno for MaxTx 0/65536/10^6, 17 worlds; thorough: x 4 "
              "controllers, 48 worlds) x 31 Hysteria-CC-RX request values: absent, empty, 0, 1, 65535/65536/65537, "
              "10^6, 10^9, 2^64-1, leading zeros, 2^64, 2^65, 10^32, signed (-1, -65536, +65536), non-numeric (abc, "
              "auto, 1e6, 0x10000, 1_000_000, 1.5, 65536.0, NaN, inner space, comma list, ;q=1), leading/trailing "
@@ -39,7 +40,10 @@ PROP = {
              "Hysteria-CC-RX response values (auto, absent, empty, 0, 1, numbers, 2^64-1, overflow, garbage incl. "
              "'automatic', whitespace-padded) x Hysteria-UDP true/false/absent/garbage rotating (quick: controller "
              "rotating, 138 handshakes; thorough: x 4 controllers, 552). Per handshake the oracle compares (a) the "
-             "controller last installed on each end (hook: brutal+bps / bbr+profile / reno) with the reference rule, "
+             "controller effective on each end (hook: the last report that installs something, brutal+bps / bbr+profile; a "
+             "'reno' report installs nothing, so Reno only if nothing was installed before) with the reference rule; "
+             "server-end reports that precede the connection's auth_ok in the ordered log are recorded and name the "
+             "violation when the effective controller is not the ruled one, "
              "(b) HandshakeInfo.Tx and every EventLogger.Connect(tx) with the rate installed on that end (0 unless "
              "brutal), (c) each side's own Hysteria-CC-RX declaration with its configured receive limit ('auto' when "
              "ignoring). A handshake is non-trivial when it completed with 233; distinct = distinct (server config, "
